@@ -2,7 +2,9 @@ package main
 
 // Engine-level part of hC19: a scripted misbehaving TCP target, and the real provider + gun + engine against it.
 //
-//	eng <gun> <keepalive> <instances> <mode> <iters> <n> {step}*n       gun = http | scenario | http2
+//	eng <gun> <keepalive> <instances> <mode> <opts> <iters> <n> {step}*n       gun = http | scenario | http2
+//	  opts = d<0|1>t<0|1>g<0|1>a<-|all|warning|error>: gun options httptrace.dump, httptrace.trace, debug-level
+//	         logging (verboseLogging), answlog enabled with that filter
 //	  mode = 0 | 1 (nobody listens: connection refused) | 2 (http2 gun only: TLS target WITHOUT HTTP/2 = the documented fatal condition)
 //	  gun = http2: HTTP/2 TLS target, keep-alives disabled so that every request makes its own TLS handshake;
 //	  behaviours: status | tlsalert (this request's handshake is answered with a TLS alert) |
@@ -31,6 +33,7 @@ import (
 	"net/http"
 	"net/http/httptest"
 	"os"
+	"path/filepath"
 	"runtime"
 	"sort"
 	"strconv"
@@ -48,6 +51,7 @@ import (
 	coreimport "github.com/yandex/pandora/core/import"
 	"github.com/yandex/pandora/lib/monitoring"
 	"go.uber.org/zap"
+	"go.uber.org/zap/zapcore"
 	"golang.org/x/net/http2"
 
 	"verifharness/internal/vh"
@@ -316,6 +320,18 @@ func engSetup() {
 	}
 }
 
+// gunConf adds the generated gun options (opts = d?t?g?a<filter>) to the gun's config map.
+func gunConf(m map[string]any, opts string, answPath string) map[string]any {
+	if len(opts) < 8 {
+		return m
+	}
+	m["httptrace"] = map[string]any{"dump": opts[1] == '1', "trace": opts[3] == '1'}
+	if f := opts[7:]; f != "-" {
+		m["answlog"] = map[string]any{"enabled": true, "path": answPath, "filter": f}
+	}
+	return m
+}
+
 func hclString(s string) string {
 	s = strings.ReplaceAll(s, "\\", "\\\\")
 	s = strings.ReplaceAll(s, "\"", "\\\"")
@@ -389,6 +405,7 @@ func runEngineOnce(t *tokens) string {
 	inst := t.num()
 	mode := t.next()
 	refused := mode == "1"
+	opts := t.next()
 	iters := t.num()
 	var steps []step
 	for n := t.num(); n > 0; n-- {
@@ -441,6 +458,7 @@ func runEngineOnce(t *tokens) string {
 		defer fs.Remove(path)
 		ammo = map[string]any{"type": "uri", "file": path, "limit": len(steps)}
 	}
+	answPath := filepath.Join(os.TempDir(), fmt.Sprintf("hC19-answ-%d-%d.log", os.Getpid(), caseNo))
 	guntype := "http"
 	if gun == "scenario" {
 		guntype = "http/scenario"
@@ -452,23 +470,29 @@ func runEngineOnce(t *tokens) string {
 		"id":     "p",
 		"ammo":   ammo,
 		"result": map[string]any{"type": "discard"},
-		"gun": map[string]any{
+		"gun": gunConf(map[string]any{
 			"type": guntype, "target": addr,
 			"disable-keep-alives":     !ka,
 			"response-header-timeout": "1s",
 			"dial":                    map[string]any{"timeout": "1s"},
-		},
+		}, opts, answPath),
 		"rps-per-instance": false,
 		"rps":              []any{map[string]any{"type": "once", "times": times}},
 		"startup":          []any{map[string]any{"type": "once", "times": inst}},
 	}
+	defer os.Remove(answPath)
 	conf := cli.DefaultConfig()
 	if err := config.DecodeAndValidate(map[string]any{"pools": []any{pool}}, conf); err != nil {
 		return "run=conferr:" + vh.HexS(err.Error())
 	}
 	ag := &recAggr{}
 	conf.Engine.Pools[0].Aggregator = ag
-	eng := engine.New(zap.NewNop(), metrics, conf.Engine)
+	logger := zap.NewNop()
+	if len(opts) > 5 && opts[5] == '1' {
+		// debug-level logger into the void: Bind sees a logger that accepts Debug and switches verboseLogging on
+		logger = zap.New(zapcore.NewCore(zapcore.NewJSONEncoder(zap.NewProductionEncoderConfig()), zapcore.AddSync(io.Discard), zapcore.DebugLevel))
+	}
+	eng := engine.New(logger, metrics, conf.Engine)
 	ctx, cancel := context.WithTimeout(context.Background(), 45*time.Second)
 	done := make(chan error, 1)
 	go func() { done <- eng.Run(ctx) }()
